@@ -101,13 +101,14 @@ def rearm(vc):
             note="when the integrator stops on the burn's event the thrust state is switched by the callback evaluated at the LAST reported root, and a finite burn never changes the state discontinuously")
 def apply_(vc):
     import resonaate.dynamics.integration_events.finite_thrust as ft
-    if not vc.symbolic:
-        vc.ensure("O-C15-apply.toggle", True)
-        vc.ensure("O-C15-apply.no-state-jump", True)
-        return
     asked = []
 
-    class Ev:
+    class Ev(ft.ScheduledFiniteThrust if not vc.symbolic else object):
+        valid_thrust_funcs = ()
+
+        def __init__(self):
+            pass
+
         def getStateChangeCallback(self, t):
             asked.append(t)
             return "CB"
